@@ -414,6 +414,51 @@ func VerifHarness_C01_O2a() {
 	verifReach("end")
 }
 
+// O2d: the vote rule across a validator-set change: the set of round 2 (where
+// the deciding witness sits) has one validator more, or one less, than the set
+// of rounds 0 and 1.  The strongly-seen witnesses are those of round 1 (old
+// set); the decision threshold is the supermajority of the DECIDING round's set.
+func VerifHarness_C01_O2d() {
+	n := 3 + verifChoice("n", 3)
+	f := verifBuildFameNet(n, 1)
+	h := f.vn.h
+	n2 := n + 1
+	var set2 *peers.PeerSet
+	if verifChoice("change", 2) == 0 {
+		set2 = f.vn.set.WithNewPeer(verifPeerN(9))
+	} else {
+		set2 = f.vn.set.WithRemovedPeer(f.vn.peers[n-1])
+		n2 = n - 1
+	}
+	if err := h.Store.SetPeerSet(2, set2); err != nil {
+		panic(err)
+	}
+	err := h.DecideFame()
+	verifAssert("decide-fame-no-error", err == nil)
+	yays, nays := f.tally(0)
+	v := yays >= nays
+	t := nays
+	if v {
+		t = yays
+	}
+	r0, _ := h.Store.GetRound(0)
+	fx := r0.CreatedEvents["x"].Famous
+	if 3*t > 2*n2 {
+		if v {
+			verifAssert("supermajority-of-the-deciding-rounds-set-decides-famous", fx == common.True)
+		} else {
+			verifAssert("supermajority-of-the-deciding-rounds-set-decides-not-famous", fx == common.False)
+		}
+		verifReach("decided-across-a-set-change")
+	} else {
+		verifAssert("below-the-deciding-rounds-supermajority-no-decision", fx == common.Undefined)
+		if 3*t > 2*n {
+			verifReach("tally-between-the-two-thresholds")
+		}
+	}
+	verifReach("end")
+}
+
 // O2b: unanimity after a decision — whenever DecideFame decides x = v through
 // one round-2 witness, EVERY other round-2 witness (with any admissible
 // strongly-seen set) has majority vote v: the decision does not depend on
